@@ -22,3 +22,5 @@ Definition zero_interval (n : nat) : interval := mkI n n (repeat 0 n).      (* T
 (* what a simulator's step() returned, as far as scheduler.step looks at it; and what scheduler.step decides *)
 Inductive reply := RNone | RInt (v : Z) | ROther.
 Inductive step_decision := StepErrType | StepErrNotLater | StepErrMissing | StepOk (self_step : option Z).
+(* what one round of next_step_settled's loop ends in *)
+Inductive settle := SettleDone | Settled (t : time) | SettleWait (await_time : time).
